@@ -411,10 +411,30 @@ def gen_range_reads(rng, tier, opfmt, payloads=None, extra_n=None):
     return out
 
 
+def prefilled_reads_battery():
+    """the read calls APPEND to the caller's vectors: with items already in them (newer, older and equal
+    timestamps than what the read returns) the call behaves the same and leaves them alone"""
+    out = []
+    for p in (0, 4):
+        h = Hist(p)
+        h.new()
+        h.pushrun(6999990, 3, 12, 3)                   # around the harness's prefilled timestamps 7_000_000 + i
+        h.pushrun(h.last() + 100000, 7, 30, 4)
+        for pre in (1, 3, 50):
+            h.op(f"read_all s=U e=U pre={pre}")
+            h.op(f"read_all s=I:7000000 e=I:{h.ts[-10]} pre={pre}")
+            h.op(f"read_all s=I:{h.ts[-5]} e=U pre={pre}")
+            h.op(f"read_first_n n=4 s=U e=U pre={pre}")
+            h.op(f"read_n n=5 s=U e=U pre={pre}")
+        out.append((f"prefilled-reads-p{p}", h.script()))
+    return out
+
+
 def gen_C02(rng, tier):
     return (full_section_battery("read_all s={s} e={e}") + rebuilt_index_reads_battery(tier, ["read_all s={s} e={e}"])
             + buffer_end_start_sweep(tier, lambda s: [f"read_all s=I:{s} e=U"])
             + cursor_alias_battery(tier, lambda T1, T2, L: [f"read_all s=I:{T2} e=U", f"read_all s=I:{T2 - 5} e=I:{L - 2}", f"read_all s=I:{T1} e=E:{T2}"])
+            + extreme_bounds_battery(["read_all s={s} e={e}"]) + prefilled_reads_battery()
             + gen_range_reads(rng, tier, "read_all s={s} e={e}"))
 
 
@@ -422,6 +442,7 @@ def gen_C14(rng, tier):
     # the count is compared with the specification's count of the lines a read of that range must return;
     # where both the count and the read are asked for (cursor battery) the read is judged as well
     return (full_section_battery("n_lines s={s} e={e}") + gen_range_reads(rng, tier, "n_lines s={s} e={e}")
+            + extreme_bounds_battery(["n_lines s={s} e={e}", "read_all s={s} e={e}"])
             + cursor_alias_battery(tier, lambda T1, T2, L: [f"n_lines s=I:{T2} e=U", f"read_all s=I:{T2} e=U",
                                                               f"n_lines s=I:{T2 - 5} e=I:{L - 2}", f"read_all s=I:{T2 - 5} e=I:{L - 2}"]))
 
@@ -452,6 +473,7 @@ def big_section_tail_battery():
 def gen_C13(rng, tier):
     out = buffer_end_start_sweep(tier, lambda s: [f"read_first_n n=100000 s=I:{s} e=U"])
     out += big_section_tail_battery()
+    out += extreme_bounds_battery(["read_first_n n=3 s={s} e={e}", "read_first_n n=40 s={s} e={e}"])
     out += [(n, sc) for n, sc in full_section_battery("read_first_n n=7 s={s} e={e}")]
     # the read calls APPEND to the caller's vectors: with items already in them the answer is the same
     for p in (0, 4):
@@ -593,6 +615,25 @@ def gen_C15(rng, tier):
     out += torn_tail_battery(rng)
     out += index_lag_battery(rng, ["files"])
     out += empty_reopen_battery(["files"])
+    # completely dense sections: one line for every time unit, up to and across the largest delta, with
+    # reopens on the way - the bytes are those of the canonical encoding (no section before it is needed)
+    for p, reopen_at in ((0, None), (2, 40000), (5, 65534)):
+        h = Hist(p)
+        h.new()
+        if reopen_at:
+            h.pushrun(10000, 1, reopen_at, 3)
+            h.reopen()
+            h.pushrun(10000 + reopen_at, 1, MAXD + 3 - reopen_at, 4)
+        else:
+            h.pushrun(10000, 1, MAXD, 3)              # deltas 0..65533
+            h.op("files")
+            h.pushrun(10000 + MAXD, 1, 1, 4)          # delta 65534: still fits
+            h.op("files")
+            h.pushrun(10000 + MAXD + 1, 1, 2, 5)      # 65535: the next section
+        h.op("files")
+        h.op("close")
+        h.op("files")
+        out.append((f"dense-full-section-p{p}", h.script()))
     # ... and after an index rebuilt from a data file spanning several read buffers (a section the
     # rebuild misses makes the next append open a section too many)
     out += [x for x in gen_C06(random.Random(rng.randrange(1 << 30)), tier) if x[0].startswith("big")]
@@ -1783,8 +1824,51 @@ def refusals_with_caches_battery(rng, tier, ops_after):
     return out
 
 
+def big_cache_battery(tier, with_damage):
+    """caches that are LARGE themselves: a sparse source (every line its own section) of several thousand
+    lines with bucket sizes 1 and 2 gives cache files of several scan buffers with thousands of sections
+    (cache index beyond 64 KiB); a dense source of 70 000 lines with bucket size 3 gives a dense cache over
+    several buffers.  Attached at creation, created on open over the existing data, reopened; optionally the
+    cache is torn in the middle / its index removed and the series reopened and appended to"""
+    out = []
+    shapes = [("sparse", 4, [1, 2], 4300), ("sparse", 0, [2], 6000), ("dense", 4, [3], 9000)]
+    for shape, p, caches, count in shapes:
+        for attach in ("new", "open"):
+            h = Hist(p, caches=caches if attach == "new" else [])
+            h.new()
+            if shape == "sparse":
+                h.pushrun(70000, 70000, count, 5)
+            else:
+                h.pushrun(1000, 2, count, 5)
+            h.op("close")
+            h.open(caches=caches)
+            h.op("close")
+            h.op("files")
+            if with_damage:
+                h.op("save 0")
+                for k, B in enumerate(caches):
+                    for dmg in (f"cut cache{k} 40000", f"rm cache{k}.index", f"cut cache{k}.index 65540"):
+                        h.op("restore 0")
+                        h.op(dmg)
+                        h.open(caches=caches)
+                        h.pushrun(h.last() + 70000, 70000, 5, 6)
+                        h.op("close")
+                        h.op("files")
+                        # the in-memory history continues from the restored state: forget the 5 lines
+                        h.ts = h.ts[:-5]
+            else:
+                h.open(caches=caches)
+                h.pushrun(h.last() + 70000, 70000, 7, 6)
+                h.op(f"read_n n=50 s=U e=U")
+                h.op("close")
+                h.op("files")
+            out.append((f"big-cache-{shape}-p{p}-{attach}" + ("-damaged" if with_damage else ""), h.script()))
+    return out
+
+
 def gen_C08(rng, tier):
     out = spread_battery(["files"]) + refusals_with_caches_battery(rng, tier, ["files"])
+    out += big_cache_battery(tier, False)
     nh = 12 if tier == "quick" else 100
     Bs = [1, 2, 3, 4, 7, 10, 64]
     for i in range(nh):
@@ -1843,6 +1927,7 @@ def gen_C08(rng, tier):
 
 def gen_C09(rng, tier):
     out = [x for x in error_path_battery(tier) if x[0].startswith("cache-header")]
+    out += big_cache_battery(tier, True)
     out += stale_bucket_battery(tier)
     out += emptied_cache_battery(tier)
     for B in [1, 2, 3, 4, 10]:
@@ -1928,8 +2013,31 @@ def gen_C09(rng, tier):
     return out
 
 
+def extreme_bounds_battery(opfmts):
+    """bounds AT the ends of the u64 range on series whose first line sits at 0 and whose last lines sit at
+    u64::MAX: `..=u64::MAX`, `..u64::MAX`, `0..`, `(Excluded(0), ..)`, each for every op of `opfmts`"""
+    out = []
+    for p in (0, 4):
+        h = Hist(p)
+        h.new()
+        h.pushrun(0, 1, 12, 3)
+        h.pushrun(1000, 7, 10, 4)
+        h.pushrun(U64 - 5, 1, 6, 5)
+        for s_ in ("U", "I:0", "E:0", "I:1", f"I:{U64 - 5}", f"E:{U64 - 1}", f"I:{U64}", "I:1000"):
+            for e_ in ("U", f"I:{U64}", f"E:{U64}", f"I:{U64 - 1}", "I:0", "E:0", "E:1", f"I:{U64 - 3}"):
+                for fmt in opfmts:
+                    h.op(fmt.format(s=s_, e=e_))
+        h.reopen()
+        for fmt in opfmts:
+            h.op(fmt.format(s=f"I:{U64 - 5}", e=f"I:{U64}"))
+            h.op(fmt.format(s="I:1000", e=f"I:{U64}"))
+        out.append((f"extreme-bounds-p{p}", h.script()))
+    return out
+
+
 def gen_C10(rng, tier):
     out = buffer_end_start_sweep(tier, lambda s: [f"read_n n=7 s=I:{s} e=U"])
+    out += extreme_bounds_battery(["read_n n=100 s={s} e={e}", "read_n n=9 s={s} e={e}", "read_n n=1 s={s} e={e}"])
     # the read calls append to the caller's vectors
     for p in (0, 4):
         h = Hist(p)
@@ -2609,6 +2717,8 @@ def gen_C18(rng, tier):
 
 def gen_C19(rng, tier):
     out = spread_battery(["len", "read_n n=2 s=U e=U", "read_all s=U e=U"])
+    out += prefilled_reads_battery()
+    out += extreme_bounds_battery(["read_all s={s} e={e}", "read_n n=3 s={s} e={e}", "read_first_n n=2 s={s} e={e}", "n_lines s={s} e={e}"])
     out += text_header_battery(tier)      # builder options: demanded vs stored text headers
     out += error_path_battery(tier)
     out += stale_bucket_battery(tier)
